@@ -79,7 +79,7 @@ def run(prog, rep, tier):
               "all argument checks precede the first attribute store", "attributes are stored before the arguments are fully checked")
     st = {a.attr: a.value for a in stores}
     rep.check("ORDER.ctor", st.get("_ordering") == ("call", U + "topological_ordering", (st.get("graph"),), (("A", st.get("graph")),)) and
-              st.get("graph") in (("method", ("cmp", "!=", GRAPH, ("const", 0)), "astype", (("extref", "int"),), ()), ("method", GRAPH, "copy", (), ())),
+              st.get("graph") is not None and derives_patternwise(st.get("graph"), "graph"),
               fwhere(f), "self._ordering = topological_ordering(self.graph), graph = 0/1 pattern of the argument", "ordering/graph stored as %s / %s" % (
                   fmt(st.get("_ordering", ("const", None)))[:60], fmt(st.get("graph", ("const", None)))[:60]))
     rep.check("SHAPE.ctor", st.get("p") in (("sub", ("attr", GRAPH, "shape"), ("const", 1)), ext("len", GRAPH), ("sub", ("attr", GRAPH, "shape"), ("const", 0))) and
